@@ -98,6 +98,7 @@ type ArgSpec struct {
 	Spell  string `json:"spell,omitempty"`   // named: the name as spelled by the caller (any casing)
 	Party  int    `json:"party,omitempty"`   // conv/convfunc: index into World.Parties
 	NilPad bool   `json:"nil_pad,omitempty"` // convfunc: ConverterFunc(nil, f, nil)
+	NilPtr bool   `json:"nil_ptr,omitempty"` // typed/named with a pointer type: the value is a nil pointer of that type (C06 only)
 	Gen    *Gen   `json:"gen,omitempty"`
 	// Filter: accepted pool types. Style 0 raw func, 1 FilterOr(FilterType...),
 	// 2 FilterAnd(FilterOr(...), always-true).
